@@ -80,3 +80,19 @@ def run_case(case):
     if probs:
         return fail("structure", "; ".join(m for _, m in probs[:3]), probs[0][0], labels)
     return Outcome(True, labels=sorted(labels), nontrivial=nontrivial)
+
+
+# --------------------------------------------------------------------------
+# exhaustive array layer (vlib/arraylayer.py)
+# --------------------------------------------------------------------------
+from vlib import arraylayer  # noqa: E402
+
+EXHAUSTIVE_SCOPE = arraylayer.SCOPE
+
+
+def exhaustive_jobs(tier):
+    return arraylayer.jobs(tier)
+
+
+def run_exhaustive_job(job):
+    return arraylayer.run_job(run_case, job, extra=None)
